@@ -160,13 +160,13 @@ GROUP BY fingerprint, timestamp_ns, type;
 DROP TABLE IF EXISTS {{.DB}}.metrics_15s_mv_bak {{.OnCluster}};
 
 ALTER TABLE time_series
-    (ADD COLUMN `type_v2` UInt8 ALIAS type);
+    (ADD COLUMN IF NOT EXISTS `type_v2` UInt8 ALIAS type);
 
 ALTER TABLE time_series_gin
-    (ADD COLUMN `type_v2` UInt8 ALIAS type);
+    (ADD COLUMN IF NOT EXISTS `type_v2` UInt8 ALIAS type);
 
 ALTER TABLE samples_v3
-    (ADD COLUMN `type_v2` UInt8 ALIAS type);
+    (ADD COLUMN IF NOT EXISTS `type_v2` UInt8 ALIAS type);
 
 ALTER TABLE metrics_15s
-    (ADD COLUMN `type_v2` UInt8 ALIAS type);
+    (ADD COLUMN IF NOT EXISTS `type_v2` UInt8 ALIAS type);
